@@ -4,4 +4,4 @@
 cd "$(dirname "$0")"
 PROPS="$@"
 [ -n "$PROPS" ] || PROPS=$(python3 -c "import json;print(' '.join(c['property_id'] for c in json.load(open('MANIFEST.json'))['checks']))")
-for p in $PROPS; do ./check $p --tier quick --write-baseline | tail -1; done
+for p in $PROPS; do ./check $p --tier quick --write-baseline | grep -v "^   " | cut -c1-300; done
